@@ -394,7 +394,7 @@ def _validate(ctx, cases):
 def run(ctx):
     rng = random.Random(ctx.seed)
     plans, caller_lengths = _plans(ctx.quick)
-    randoms = 1500 if ctx.quick else 40000
+    randoms = 1500 if ctx.quick else 20000
     files = _mc_files(plans)
     mc = tlc.run("MC_Translate", _mc_cfg(INVARIANTS), ctx.workdir, extra_files=files, dump=True, coverage=True,
                  timeout=3000)
